@@ -268,6 +268,9 @@ def c_hq(t):
                 raise TokenError('bad item token %r' % it)
             return '(HHrefs (QOuter %s %s))' % (c_nat(ab[0], 'id'), c_nat(ab[1], 'id'))
         return '(HHrefs (QId %s))' % c_nat(it, 'id')
+    if o == 'hrefsin':
+        _arity(t, 3)
+        return '(HHrefsIn %s %s)' % (c_nat(t[1], 'id'), c_href(t[2]))
     if o in ('valid', 'unique', 'name', 'inner', 'outer'):
         _arity(t, 2)
         return '(%s %s)' % ({'valid': 'HValid', 'unique': 'HUnique', 'name': 'HName', 'inner': 'HInner', 'outer': 'HOuter'}[o], c_href(t[1]))
